@@ -2,6 +2,7 @@ import AvroModel.Theorems.C20
 import AvroModel.Theorems.C20inv
 import AvroModel.Theorems.C20names
 import AvroModel.Theorems.C20fits
+import AvroModel.Theorems.C20more
 /-
 C20 — derived schemas fit their types, all parts together:
 * `Theorems/C20.lean`: the reuse discipline of `find_or_build` (a registered type is never built
@@ -19,5 +20,8 @@ C20 — derived schemas fit their types, all parts together:
   hypothesis that variant names select their own branch) serializes under the derived schema
   (`C20_fits`, `C20_fits_unions`), through `Realizes` (the derived graph realises the type);
   the round-trip half then follows from C01/C02 on that schema and is checked per generated
-  value by the `derive` stream.
+  value by the `derive` stream;
+* `Theorems/C20more.lean`: `UnionNames` derived from the program text (`UnionNamesText`, decidable:
+  every variant's serde name is a name of its own branch and of no other) and the fits theorem
+  for generic records (`FitWfG`, `C20_fits_generic`; lookup keys are prefix codes).
 -/
